@@ -502,7 +502,7 @@ fn counters_for(max: u8) -> Vec<u8> {
 }
 
 fn after_issue<I: HasIdentityObjectFields<IpPairing, ArCurve, AttributeKind>>(
-    env: &mut Env, cfg: &Cfg, id_object: &I, id_use_data: &IdObjectUseData<IpPairing, ArCurve>,
+    env: &mut Env, cfg: &Cfg, id_object: &I, forged: &I, id_use_data: &IdObjectUseData<IpPairing, ArCurve>,
     ip_info: &IpInfo<IpPairing>, ars_infos: &ArMap, ars_keys: &BTreeMap<ArIdentity, ElgSecretKey<ArCurve>>, alist: &AList,
 ) {
     let global = env.global.clone();
@@ -549,7 +549,30 @@ fn after_issue<I: HasIdentityObjectFields<IpPairing, ArCurve, AttributeKind>>(
     let mut known = ars_infos.clone();
     if cfg.extra_ar { known.insert(extra.ar_identity, extra.clone()); }
     let context = IpContext::new(ip_info, ars_infos, &global);
-    let counters = counters_for(cfg.max_accounts);
+    let mut counters = counters_for(cfg.max_accounts);
+    if cfg.n > 5 { counters.retain(|&x| x == 0 || x >= cfg.max_accounts); }
+    // a counter above the limit, made "producible" by an identity object that claims max_accounts = 255
+    // (the provider signed the smaller limit): verify_cdi must refuse it
+    if cfg.max_accounts < 255 {
+        for existing in [false, true] {
+            let counter = cfg.max_accounts + 1;
+            let noe: NoE = if existing { Right(AccountAddress([9u8; 32])) } else { Left(EXPIRY) };
+            let cred_data = CredentialData { keys: make_keys(env, cfg.nkeys), threshold: SignatureThreshold::ONE };
+            let pol = policy.clone();
+            let made = guarded(|| create_credential(context, forged, id_use_data, counter, pol, &cred_data, &SystemAttributeRandomness {}, &noe));
+            let mut rec = json!({"k":"forged","cfg":cfg.idx,"n":cfg.n,"t":cfg.t,"v1":cfg.v1,"acct": if existing {"existing"} else {"new"},"counter":counter,"max":cfg.max_accounts});
+            match made {
+                Ok(Ok((cdi, _))) => { rec["created"] = json!("Ok");
+                    let ver = verr(&guarded(|| verify_cdi(&global, ip_info, &known, &cdi, &noe)));
+                    if ver == "OK" { rec["dump"] = dump_ctx(&global, ip_info, &known, &cdi, &noe); }
+                    rec["verified"] = json!(ver); }
+                Ok(Err(_)) => { rec["created"] = json!("Err"); }
+                Err(_) => { rec["created"] = json!("PANIC"); }
+            }
+            out(rec);
+            if !env.thorough { break; }
+        }
+    }
     let mut pert_done = false;
     let mut icp_done = 0;
     let addr = AccountAddress({ let mut b = [0u8; 32]; for x in b.iter_mut() { *x = env.r.next() as u8; } b });
@@ -637,8 +660,10 @@ fn run_config(env: &mut Env, cfg: &Cfg) {
         rec["ms"] = json!(t0.elapsed().as_millis() as u64);
         out(rec);
         if cfg.bad_threshold { return; }
+        let mut al2 = alist.clone(); al2.max_accounts = 255;
+        let forged = IdentityObject { pre_identity_object: de(&to_bytes(&pio)).unwrap(), alist: al2, signature: sig.clone() };
         let ido = IdentityObject { pre_identity_object: pio, alist: alist.clone(), signature: sig };
-        after_issue(env, cfg, &ido, &id_use_data, &ip_info, &ars_infos, &ars_keys, &alist);
+        after_issue(env, cfg, &ido, &forged, &id_use_data, &ip_info, &ars_infos, &ars_keys, &alist);
     } else {
         let pio = match guarded(|| generate_pio_v1_with_rng(&context, threshold, &id_use_data, &mut env.csprng)) {
             Ok(Some((pio, _))) => pio,
@@ -658,8 +683,10 @@ fn run_config(env: &mut Env, cfg: &Cfg) {
         rec["ms"] = json!(t0.elapsed().as_millis() as u64);
         out(rec);
         if cfg.bad_threshold { return; }
+        let mut al2 = alist.clone(); al2.max_accounts = 255;
+        let forged = IdentityObjectV1 { pre_identity_object: de(&to_bytes(&pio)).unwrap(), alist: al2, signature: sig.clone() };
         let ido = IdentityObjectV1 { pre_identity_object: pio, alist: alist.clone(), signature: sig };
-        after_issue(env, cfg, &ido, &id_use_data, &ip_info, &ars_infos, &ars_keys, &alist);
+        after_issue(env, cfg, &ido, &forged, &id_use_data, &ip_info, &ars_infos, &ars_keys, &alist);
     }
     out(json!({"k":"cfgdone","cfg":cfg.idx,"ms":t0.elapsed().as_millis() as u64}));
 }
